@@ -325,6 +325,8 @@ def directed(ctx):
 
 
 def run(ctx):
+    import extract
+    extract.main()
     lean_obligations(ctx)
     ctx.extra["rule"] = ("(a) seeded random module trees (depth <= 4, containers Sequential/ModuleList/ModuleDict/custom block, leaves Linear/Conv2d/LayerNorm/7 other layer classes), `modules=` filter absent or a random subset, 5 weight qtypes, activations None/qint8/qfloat8; "
                          "(b) Linear/Conv2d/LayerNorm over hyper-parameter grids (stride, padding ints/tuples/'same'/'valid', dilation, groups, padding_mode, bias; normalized_shape, bias), 5 weight qtypes, 4 activation settings, 3 dtypes, float or quantized inputs. "
